@@ -354,11 +354,13 @@ var ErrCrashed = errors.New("state store: closed (crash)")
 // released; a handle that was crashed fails every later call without writing.
 type GateStore struct {
 	storage.StateStorer
-	Ctl    *sched.Ctl
-	Gated  []string
-	mu     sync.Mutex
-	dead   bool
-	Writes []Write
+	Ctl   *sched.Ctl
+	Gated []string
+	// GatedGets: key prefixes whose Get is a gate as well
+	GatedGets []string
+	mu        sync.Mutex
+	dead      bool
+	Writes    []Write
 }
 
 // Write is one Put that reached the underlying store through this handle.
@@ -436,9 +438,24 @@ func (g *GateStore) Put(key string, i interface{}) error {
 	return err
 }
 
+// Get of a key with one of the GatedGets prefixes parks at gate "get" *before* the read (the read happens when the
+// gate is released) for a registered thread, or for a worker goroutine of the controller's proxy thread.
 func (g *GateStore) Get(key string, i interface{}) error {
 	if g.isDead() {
 		return ErrCrashed
+	}
+	if g.Ctl != nil {
+		for _, p := range g.GatedGets {
+			if strings.HasPrefix(key, p) {
+				if _, err, gated := g.Ctl.Gate("get", map[string]interface{}{"key": key}); gated && err != nil {
+					return err
+				}
+				if g.isDead() {
+					return ErrCrashed
+				}
+				break
+			}
+		}
 	}
 	return g.StateStorer.Get(key, i)
 }
